@@ -2,7 +2,7 @@
 from __future__ import annotations
 import copy, json, os, random, subprocess, sys, zipfile
 from ..common import Result, Violation, run_driver, canon_hash, scratch, REPO, VERIF
-from ..langgen import LangGen, gen_model, lang_payload, inst_payload, build_lang, build_model, jtxt
+from ..langgen import LangGen, chain_language, gen_model, lang_payload, inst_payload, build_lang, build_model, jtxt
 from ..genrun import graph_obs, model_nodes_canon
 from .. import malsrc
 
@@ -53,6 +53,23 @@ def check_case(spec, inst, res):
     if json.dumps(m._to_dict(), sort_keys=True, default=str) != model_snap: probs.append('generation / analysis modified the serialized model')
     g3 = AttackGraph(lg, m)
     if graph_obs(g3) != o1: probs.append('a generation after an analysis differs from the first one')
+    # attackers: attaching to the first graph after a second one was generated from the same model
+    from maltoolbox.model import AttackerAttachment
+    att = AttackerAttachment(name='att')
+    for a in m.assets[:3]:
+        steps = [n.name for n in g1.nodes if n.asset is a][:2]
+        for st in steps: att.add_entry_point(a, st)
+    m.add_attacker(att)
+    ga = AttackGraph(lg, m); gb = AttackGraph(lg, m)
+    ga.attach_attackers()
+    own = {id(n) for n in ga.nodes}
+    if any(id(n) not in own for a in ga.attackers for n in list(a.reached_attack_steps) + list(a.entry_points)):
+        probs.append('attaching attackers to one graph reached nodes of another graph built from the same model')
+    if any(n.compromised_by for n in gb.nodes): probs.append('attaching attackers to one graph compromised nodes of another graph built from the same model')
+    want = sorted(f'{a.name}:{st}' for a, sts in att.entry_points for st in sts)
+    if ga.attackers and sorted(n.full_name for n in ga.attackers[0].reached_attack_steps) != want:
+        probs.append('attached attacker does not reach exactly the entry points of the model')
+    m.remove_attacker(att)
     # file based wrapper: .mar (zip with langspec.json) and .mal (printed source), model file json / yml
     d = os.path.join(scratch(), 'c16'); os.makedirs(d, exist_ok=True)
     mar = os.path.join(d, 'lang.mar')
@@ -86,7 +103,7 @@ def run(seed, tier, lean) -> Result:
     cases = []
     for i in range(n):
         r = random.Random(rnd.getrandbits(48))
-        spec = LangGen(r).gen()
+        spec = chain_language(r) if i % 3 == 2 else LangGen(r).gen()
         spec['categories'] = [{'name': 'Cat', 'meta': {}}]
         for a in spec['assets']: a['category'] = 'Cat'
         cases.append((spec, gen_model(r, spec)))
